@@ -133,6 +133,36 @@ CLAIMED.update({
         note="PARTIAL: 'recovery picks the latest copy' is a hypothesis of the reopen theorem (it follows from the scan "
              "reconstructing each block, C07, and sequences only growing; violated by open finding F10 when reinsertion is "
              "configured, reported as KNOWN-FINDING); idempotent close and writes after close are checked by the oracle only."),
+    "C04": dict(
+        text="Theorems on the one-key model, where a crash at a reachable state s followed by a reopen is do_recover(s, vis): "
+             "(1) for EVERY history and every part vis of the device the scan reaches, a key reads as a miss or a version really "
+             "written for it; (2) for histories within run_ok, the latest submission of the key, once its index page is on the "
+             "device (in particular once acknowledged), is exactly what a complete scan serves; a logged delete that is the latest "
+             "submission reads as a miss; recovery's winner is never older (in sequence) than any copy the scan sees; the "
+             "invariants hold again after a restart, so the statements compose over repeated crash/restart cycles. "
+             "Correspondence: the extracted model's prediction for a crash at every quiescent point of deterministic histories "
+             "against the real store reopened on the device image; oracle: every write boundary and 1-/3-page tears of the "
+             "in-flight write of logged device writes turned into images, reopened, every key read, one more write issued.",
+        ref="4/C04", tech="Coq proof (two invariants over the transition system, recovery winner lemmas) + extracted-model "
+                          "correspondence + crash-image oracle",
+        note="PARTIAL: crash points inside a batch are states of the model only because the blob index page is one page and is "
+             "written after the data it lists (flusher.rs order; checked by the crash-image oracle, seeded change C04-m1 reverses "
+             "it); 'version order follows sequence order' between two flushed copies is used informally for 'never an older one'; "
+             "wrap-around (reclaim in progress at the crash) is covered by the oracle only."),
+    "C03": dict(
+        text="Theorems: (bytes) for arbitrary bytes read from the device, load hands out an entry only if magic and compression "
+             "tag are valid and the checksum stored in the header equals the checksum of exactly the bytes decoded as value and "
+             "key (XXH64 and the decompressors are parameters); damage that changes that checksum, or the header's magic/tag, "
+             "yields a miss; (recovery) for every history and whatever part of the device survives and is reached by the scan, a "
+             "recovered store answers a miss or a version really written for the key; an index entry whose bytes fail "
+             "verification is a miss. Fault-injection oracle: every single-page fault (zero, 0xff, bit flips, swaps within and "
+             "across blocks and with the tombstone log) on images of real workloads, reopen in quiet mode, read every key.",
+        ref="4/C03", tech="Coq proof (acceptance lemma over arbitrary bytes; unconditional version invariant) + extracted-model "
+                          "correspondence + fault-injection oracle",
+        note="PARTIAL: the blob index page and tombstone page parsers are exercised by the oracle only (no Coq model of their "
+             "byte format beyond C10's log); 'opening never panics' is an observation of the oracle runs; header fields other "
+             "than the lengths are not covered by the entry checksum (a flip of hash/sequence in the header is caught by the "
+             "key comparison or not at all - noted in DESIGN.md)."),
 })
 
 NOT_YET = "machinery for this property is not built yet in this session (design in DESIGN.md section 4)"
